@@ -224,6 +224,10 @@ type Result struct {
 	// order of Result.Config: new keys are appended; deleting a key moves the
 	// last key into its place.
 	ConfigOrder []string
+	// Touched lists the keys that a configuration line of this input has set or
+	// removed before this result: a label supplied by the tool under such a key
+	// is no longer in effect (the file's word counts, also when it removes the key).
+	Touched map[string]bool
 }
 
 type UnitMeta struct {
@@ -296,6 +300,7 @@ func ConfigLine(line string) (key, val string, ok bool) {
 func Read(text string, units Units) []Record {
 	var out []Record
 	cfg := map[string]string{}
+	touched := map[string]bool{}
 	var order []string
 	for i, line := range Lines(text) {
 		ln := i + 1
@@ -316,6 +321,10 @@ func Read(text string, units Units) []Record {
 				res.Config[k] = v
 			}
 			res.ConfigOrder = append([]string(nil), order...)
+			res.Touched = map[string]bool{}
+			for k := range touched {
+				res.Touched[k] = true
+			}
 			out = append(out, Record{Kind: "result", Line: ln, Result: res})
 		case strings.HasPrefix(line, "U") && len(fields(line)) > 0 && fields(line)[0] == "Unit":
 			fs := fields(line)[1:]
@@ -344,6 +353,7 @@ func Read(text string, units Units) []Record {
 			}
 		default:
 			if k, v, ok := ConfigLine(line); ok {
+				touched[k] = true
 				if v == "" {
 					if _, ok := cfg[k]; ok {
 						delete(cfg, k)
